@@ -113,7 +113,8 @@ class HashSpec(Spec):
     driver = 'hash'
     lib_srcs = []
     driver_extra = WRAP
-    header_words = ('keys', 'ntabs', 'fail', 'failfrom')
+    header_words = ('keys', 'ntabs', 'fail', 'failfrom', 'vsign')
+    vsign_every = 2
     prop = 'C03'
     trusted = ['modelled, not verified: the C statements of src/hash.c and the inline functions of include/cstl/hash.h '
                'are transcribed by hand into HashModel.v (bucket array with per-bucket clean bits, sweep index, pending '
